@@ -19,6 +19,7 @@ package sidecar
 
 import (
 	"fmt"
+	"io"
 	"net/http"
 	"net/url"
 	"strconv"
@@ -101,6 +102,8 @@ func (p *Proxy) ServeHTTP(w http.ResponseWriter, r *http.Request) {
 
 	start := time.Now()
 	var scrapErr error
+	// forwarded counts the body bytes already handed to prometheus
+	forwarded := &countWriter{w: w}
 	defer func() {
 		if scrapErr != nil {
 			p.log.Errorf(scrapErr.Error())
@@ -118,11 +121,18 @@ func (p *Proxy) ServeHTTP(w http.ResponseWriter, r *http.Request) {
 			tar.ScrapeTimes++
 			tar.SetScrapeErr(start, scrapErr)
 		}
+
+		// the status line is already sent once body bytes were forwarded, so an error status
+		// can not reach prometheus any more: abort the response instead of completing it,
+		// otherwise prometheus would ingest a truncated scrape as a successful one
+		if scrapErr != nil && forwarded.n > 0 {
+			panic(http.ErrAbortHandler)
+		}
 	}()
 
 	scraper := scrape.NewScraper(jobInfo, realURL.String(), p.log)
 	if stopReason == "" {
-		scraper.WithRawWriter(w)
+		scraper.WithRawWriter(forwarded)
 	}
 
 	if err := scraper.RequestTo(); err != nil {
@@ -148,6 +158,19 @@ func (p *Proxy) ServeHTTP(w http.ResponseWriter, r *http.Request) {
 	if tar != nil {
 		tar.UpdateScrapeResult(rs)
 	}
+}
+
+// countWriter counts the bytes written to w
+type countWriter struct {
+	w io.Writer
+	n int
+}
+
+// Write implement io.Writer
+func (c *countWriter) Write(p []byte) (int, error) {
+	n, err := c.w.Write(p)
+	c.n += n
+	return n, err
 }
 
 func translateURL(u url.URL) (job string, hash string, realURL url.URL) {
